@@ -88,6 +88,7 @@ class Ctx:
 
     def __init__(self, faults=(), limits=(3000, 20000), observe=None):
         self.log = []              # scenario records (kind, act, pc, time, data)
+        self.log_act = []          # number of the activation during which each record was written
         self.trace = []            # activations (loop uid, time, activity name, signal kind)
         self.names = {}            # id(coroutine) -> activity name
         self.keep = []             # keep coroutines alive so that ids stay unique
@@ -126,6 +127,7 @@ class Ctx:
         except RuntimeError:
             now = None
         self.log.append((kind, act, pc, now, data))
+        self.log_act.append(self.nact)
 
     def on_schedule(self, loop, key, target, signal):
         pass
